@@ -1826,7 +1826,10 @@ func (ev *Evaluator) doCall(st *State, fr *Frame, c *ssa.CallCommon, instr ssa.I
 		}
 		// a call bound through a collaborator seam is the adapter the restructuring introduced: part of the caller
 		if !inline && devirt && ev.P.InScope[callee] {
-			inline = true
+			// ... unless it is a function the upstream tree already has: then it is an ordinary call
+			if _, known := refParamNames(ev.P.CanonFuncName(callee)); !known {
+				inline = true
+			}
 		}
 		// a method expression's thunk is the method call it wraps
 		if !inline && e.FnTerm == nil && strings.HasSuffix(callee.Name(), "$thunk") && callee.Synthetic != "" && len(callee.Blocks) == 1 {
